@@ -106,6 +106,7 @@ def step (c impl : String) : String :=
     let mWrep := fun (_ : Unit) => modelToks w { pcOf "weight2" with w2 := { order := .repaired } }
     let mRrepU := fun (_ : Unit) => modelToks w { pcOf "recursive" with strictU := .repaired }
     let mRrepT := fun (_ : Unit) => modelToks w { pcOf "recursive" with strictT := .repaired }
+    let mRrepO := fun (_ : Unit) => modelToks w { pcOf "recursive" with w2 := { order := .repaired } }
     let diffW := (b1 "weight2").filter (fun x => !mW.contains x)
     let diffR := (b1 "recursive").filter (fun x => !mR.contains x)
     let f9 := f9Shape w
@@ -137,6 +138,8 @@ def step (c impl : String) : String :=
             "S1 recursive userset strategy ignores the relation of userset tuples"
           else if decisions (get "recursive") ≠ decisions (get "default") && decisions mR ≠ decisions (mRrepT ()) then
             "S2 recursive TTU strategy follows parents of another type"
+          else if decisions (get "recursive") ≠ decisions (get "default") && decisions mR ≠ decisions (mRrepO ()) then
+            "F9 weight-two fast path de-duplicates by object before the condition filter (here through the left-hand side of the recursive strategy, which is the same fastPathDirect iterator)"
           else if f9 && get "weight2" ≠ get "default" then
             "F9 weight-two fast path de-duplicates by object before the condition filter"
           else if decisions (get "weight2") ≠ decisions (get "default") && decisions mW ≠ decisions (mWrep ()) then
